@@ -1,7 +1,7 @@
 (* Model of pkg/container: CARv1 framing (car.go), the CBOR container, the base64 variants and the
    reader's token map (reader.go, writer.go). Hashing and token unsealing are section variables. *)
 From Coq Require Import String.
-Require Import Base Node Cbor Varint Base64.
+Require Import Base Node Cbor Varint Base64 Generated.
 Local Open Scope N_scope.
 
 (* encoding/binary.ReadUvarint: up to 10 bytes, non-minimal encodings accepted, 64-bit overflow refused *)
@@ -15,7 +15,7 @@ Fixpoint go_uvarint_aux (buf : str) (i : nat) (mult x : N) : res (N * str) :=
   end.
 Definition go_read_uvarint (buf : str) : res (N * str) := go_uvarint_aux buf 0 1 0.
 
-Definition max_section : N := 33554432.    (* maxAllowedSectionSize = 32 MiB *)
+Definition max_section : N := src_max_section.    (* maxAllowedSectionSize = 32 MiB *)
 
 (* ldWrite / ldRead: a section is uvarint(length) ++ bytes; Ok None = clean end of input *)
 Definition ld_write (d : str) : str := to_uvarint (N.of_nat (length d)) ++ d.
@@ -34,9 +34,16 @@ Definition ld_read (s : str) : res (option (str * str)) :=
   end.
 
 Definition empty_cid : str := [1; 85; 0; 0].
-Definition car_header_node : node := Map [(lit "roots", List [Link empty_cid]); (lit "version", Int 1)].
+(* a stream of sections given by their lengths (length prefix included): is k the end of one of them? *)
+Fixpoint at_boundary (lens : list N) (acc k : N) : bool :=
+  match lens with
+  | [] => false
+  | l :: r => (acc + l =? k) || at_boundary r (acc + l) k
+  end.
+
+Definition car_header_node : node := Map [(src_roots_key, List [Link empty_cid]); (src_version_key, Int 1)].
 Definition car_header : str := encode car_header_node.
-Definition ctn_version : str := lit "ctn-v1".
+Definition ctn_version : str := src_ctn_version.
 
 Section Container.
   Variable sha256 : str -> str.
